@@ -11,6 +11,7 @@ import SvgVerif.Model.Serializer
 import SvgVerif.Model.BBox
 import SvgVerif.Model.Radial
 import SvgVerif.Model.Enclose
+import SvgVerif.Model.Length
 /-! Correspondence driver: one operation per input line, one canonical result per
 output line.  Run as `lake env lean --run Driver.lean < ops.txt`.  The Python
 harness feeds the same operations to the real svgpathtools code and diffs. -/
@@ -256,6 +257,39 @@ def ratSqrt (q : Rat) : Rat :=
     let rd := Nat.sqrt d
     if rn * rn = n ∧ rd * rd = d then (rn : Rat) / (rd : Rat) else 0
 
+/-! C06 -/
+def polyAt (co : List Rat) (t : Rat) : Rat := co.foldr (fun c acc => c + t * acc) 0
+def rabs (x : Rat) : Rat := if x < 0 then -x else x
+
+/-- `seglen err minDepth fuel a b | c0 c1 ...`: `segment_length` on the 1-D curve `Σ cᵢ tⁱ` -/
+def runSegLen (ws : List String) : String :=
+  match splitBar ws with
+  | [[err, md, fuel, a, b], co] =>
+    match parseRat? err, md.toNat?, fuel.toNat?, parseRat? a, parseRat? b, parseRats? co with
+    | some err, some md, some fuel, some a, some b, some co =>
+      let pt := polyAt co
+      match Length.segLen pt (fun p q => rabs (p - q)) (fun x y => (x + y) / 2) err md fuel 0 a b (pt a) (pt b) with
+      | some v => "value " ++ showRat v ++ " cuts " ++ toString (Length.segCuts pt (fun p q => rabs (p - q)) (fun x y => (x + y) / 2) err md fuel 0 a b (pt a) (pt b)).length
+      | none => "recursion"
+    | _, _, _, _, _, _ => "bad-args"
+  | _ => "bad-args"
+
+/-- `pathlen a1 b1 a2 b2 ... | T0 T1`: stub segments with `length(t0,t1) = a (t1-t0) + b (t1²-t0²)` -/
+def runPathLen (ws : List String) : String :=
+  match splitBar ws with
+  | [ab, [T0, T1]] =>
+    match parseRats? ab >>= pairUp, parseRat? T0, parseRat? T1 with
+    | some ab, some T0, some T1 =>
+      let seg := fun (k : Nat) (t0 t1 : Rat) =>
+        match ab[k]? with
+        | some (a, b) => a * (t1 - t0) + b * (t1 * t1 - t0 * t0)
+        | none => 0
+      match Length.pathLength (ab.map (fun p => p.1 + p.2)) seg T0 T1 with
+      | .value v => "value " ++ showRat v
+      | .bug => "bug"
+    | _, _, _ => "bad-args"
+  | _ => "bad-args"
+
 def handle (cmd : String) (args : List String) : String :=
   match cmd with
   | "polyroots01" =>
@@ -409,6 +443,8 @@ def handle (cmd : String) (args : List String) : String :=
     | some [L, s] => showIl (InvArc.invLine L s)
     | _ => "bad-args"
   | "invpath" => runInvPath args
+  | "seglen" => runSegLen args
+  | "pathlen" => runPathLen args
   | "stall" => runStall false args
   | "stall_buggy" => runStall true args
   | "cubcache" => runCubCache false args
